@@ -2,37 +2,62 @@
   The finite fact about half floats that C11 needs: the `f16 → f32 → f16` trip a `Token::F16`
   makes (`half::f16::to_f32`, then `from_f32` in `Encoder::f16`) returns every one of the
   65 536 patterns unchanged, except that a signalling NaN gets its quiet bit set.
-  Proved by kernel evaluation of the complete table.
+  Proved by kernel evaluation of the complete table.  (Imports only `Float`, so that the table is
+  not re-evaluated when other model files change.)
 -/
-import Minicbor.Lemmas.TokenSpec
+import Minicbor.Float
 
 namespace Minicbor.C11
 
+/-- a signalling half NaN gets its quiet bit set by the `f16 → f32 → f16` trip the token makes
+    (`half::f16::to_f32` followed by `from_f32`); every other pattern is kept. -/
+def quiet16 (h : Nat) : Nat :=
+  if h / 1024 % 32 = 31 ∧ h % 1024 ≠ 0 ∧ h % 1024 < 512 then h + 512 else h
+
+def allBelow : Nat → (Nat → Bool) → Bool
+  | 0, _ => true
+  | n + 1, p => p n && allBelow n p
+
+theorem allBelow_spec {n : Nat} {p : Nat → Bool} (h : allBelow n p = true) :
+    ∀ i, i < n → p i = true := by
+  induction n with
+  | zero => intro i hi; omega
+  | succ n ih =>
+    simp only [allBelow, Bool.and_eq_true] at h
+    intro i hi
+    by_cases hin : i = n
+    · subst hin; exact h.1
+    · exact ih h.2 i (by omega)
+
 theorem half_table :
-    (List.range 65536).all (fun h => decide (f32ToF16 (f16ToF32 h) = quiet16 h)) = true := by
+    allBelow 65536 (fun h => decide (f32ToF16 (f16ToF32 h) = quiet16 h ∧
+      f16ToF32 (quiet16 h) = f16ToF32 h ∧ quiet16 h < 65536)) = true := by
   decide +kernel
 
 /-- `from_f32 (to_f32 h) = h` up to quieting of signalling NaNs, for all 65 536 patterns. -/
 theorem half_roundtrip (h : Nat) (hlt : h < 65536) : f32ToF16 (f16ToF32 h) = quiet16 h := by
-  have := List.all_eq_true.mp half_table h (List.mem_range.mpr hlt)
-  simpa using this
+  have := allBelow_spec half_table h hlt
+  simp only [decide_eq_true_eq] at this; exact this.1
 
 /-- quieting does not change what the pattern converts to. -/
-theorem half_table2 :
-    (List.range 65536).all (fun h => decide (f16ToF32 (quiet16 h) = f16ToF32 h ∧ quiet16 h < 65536)) = true := by
-  decide +kernel
-
 theorem f16ToF32_quiet (h : Nat) (hlt : h < 65536) : f16ToF32 (quiet16 h) = f16ToF32 h := by
-  have := List.all_eq_true.mp half_table2 h (List.mem_range.mpr hlt)
-  simp at this; exact this.1
+  have := allBelow_spec half_table h hlt
+  simp only [decide_eq_true_eq] at this; exact this.2.1
 
 theorem quiet16_lt (h : Nat) (hlt : h < 65536) : quiet16 h < 65536 := by
-  have := List.all_eq_true.mp half_table2 h (List.mem_range.mpr hlt)
-  simp at this; exact this.2
+  have := allBelow_spec half_table h hlt
+  simp only [decide_eq_true_eq] at this; exact this.2.2
 
 /-- outside the signalling NaNs nothing changes. -/
 theorem quiet16_of_not_snan (h : Nat) (hn : ¬ (h / 1024 % 32 = 31 ∧ h % 1024 ≠ 0 ∧ h % 1024 < 512)) :
     quiet16 h = h := by
   unfold quiet16; rw [if_neg hn]
+
+/-- in particular for everything that is not a NaN (the form used by the property). -/
+theorem half_roundtrip_not_nan (h : Nat) (hlt : h < 65536) (hn : isNan16 h = false) :
+    f32ToF16 (f16ToF32 h) = h := by
+  rw [half_roundtrip h hlt, quiet16_of_not_snan]
+  intro ⟨h1, h2, _⟩
+  simp [isNan16, h1, h2] at hn
 
 end Minicbor.C11
